@@ -78,6 +78,11 @@ var wkinds = []wkind{
 	{Name: "factory2", Func: true, Deep: true}, // 47 ... func(p, q) ...       g(0, 0); h(0, 0)
 	{Name: "factory5", Func: true},             // 48 ... func(p, q, u, v, w) ... g(0, 0, 0, 0, 0); ...
 	{Name: "factoryV", Func: true},             // 49 ... func(p...) ...       g(0); h(0)
+	// a closure created one block BELOW a block that has no bindings yet; the enclosing block binds names
+	// AFTERWARDS (the payload) and then calls the closure, which must see them (its defining scope is a
+	// child of that block, whatever the block held when the child was made)
+	{Name: "closureEarlyIf"},               // 50 g = nil; if true { if true { g = func() { READ Q } }; . ; g() }
+	{Name: "closureEarlyFunc", Func: true}, // 51 g = nil; func f() { if true { g = func() { READ Q } }; . ; g() }; f()
 }
 
 // ---------- spine descriptor ----------
@@ -336,6 +341,16 @@ func (b *builder) construct(kind, k int, slot []*stmt) []*stmt {
 			{Op: opCall, Name: g, Args: zeros},
 			{Op: opCall, Name: h, Args: zeros},
 		}
+	case 50, 51:
+		g, f := "g"+sfx, "f"+sfx
+		lit := &fnlit{Body: []*stmt{read("Q" + sfx)}}
+		inner := &stmt{Op: opIf, Arms: []arm{{tt, []*stmt{assign(g, &expr{K: 'f', Fn: lit})}}}}
+		body := append([]*stmt{inner}, slot...)
+		body = append(body, &stmt{Op: opCall, Name: g})
+		if kind == 50 {
+			return []*stmt{assign(g, &expr{K: 'z'}), {Op: opIf, Arms: []arm{{tt, body}}}}
+		}
+		return []*stmt{assign(g, &expr{K: 'z'}), {Op: opFunc, Name: f, Body: body}, {Op: opCall, Name: f}}
 	}
 	panic("bad construct kind")
 }
